@@ -135,12 +135,15 @@ where
             self.block.set_position(self.position);
             self.position += self.block.size();
 
-            if self.block.data().len() > 0 {
-                break;
+            let len = self.block.data().len();
+
+            if len > 0 {
+                return Ok(len);
             }
         }
 
-        Ok(self.block.data().len())
+        // No (nonempty) block was read.
+        Ok(0)
     }
 
     fn read_block(&mut self) -> io::Result<usize> {
